@@ -113,6 +113,7 @@ struct Run<'a, 'b> {
     next_id: u64,
     disk_reads: u64,
     cache_reads: u64,
+    bad_key: Option<usize>,
 }
 
 impl Run<'_, '_> {
@@ -176,6 +177,18 @@ impl Run<'_, '_> {
             let has = self.sim.has_key(0, &key);
             let in_list = listed.get(&addr).cloned();
             let n_listed = listed.keys().filter(|a| a.to_record_key() == key).count();
+            if self.bad_key == Some(k) {
+                // every write of this key failed on disk and was dropped by the store itself
+                if matches!(m.last, Some(Last::Put(_))) {
+                    if got.is_some() {
+                        self.viol("failed-write-still-served", format!("after settling, k{k} (whose disk write failed and was dropped via RemoveFailedLocalRecord) is still returned by get"));
+                    }
+                    if has || in_list.is_some() {
+                        self.viol("failed-write-still-listed", format!("after settling, k{k} (whose disk write failed) is still held/listed"));
+                    }
+                }
+                continue;
+            }
             match m.last {
                 Some(Last::Put(vi)) => {
                     let (v, kind) = &m.versions[vi];
@@ -278,7 +291,14 @@ impl Check for C01 {
         let nkeys = cx.rng.gen_range(3..=12);
         let keys = key_universe(&mut cx.rng, nkeys);
         let nops = cx.rng.gen_range(20..=200);
-        let mut r = Run { cx, sim, keys, model: vec![KeyModel::default(); nkeys], hist: vec![], next_id: 0, disk_reads: 0, cache_reads: 0 };
+        // in a third of the runs one key's file path is occupied by a directory: its disk writes fail for real,
+        // the store's own RemoveFailedLocalRecord path runs, and the key must end up neither readable nor listed
+        let bad_key: Option<usize> = if cx.rng.gen_bool(0.33) { Some(cx.rng.gen_range(0..nkeys)) } else { None };
+        if let Some(b) = bad_key {
+            let _ = std::fs::create_dir_all(root.join("record_store").join(hex(keys[b].as_ref())).join("occupied"));
+            cx.count("runs-with-failing-disk-write");
+        }
+        let mut r = Run { cx, sim, keys, model: vec![KeyModel::default(); nkeys], hist: vec![], next_id: 0, disk_reads: 0, cache_reads: 0, bad_key };
         let (mut saw_overwrite, mut saw_remove) = (false, false);
         for opi in 0..nops {
             let k = r.cx.rng.gen_range(0..nkeys);
